@@ -200,7 +200,7 @@ class Uniform(Prior):
                 self.guess = upper_bound
             else:
                 self.guess = 0
-        elif guess < lower_bound or guess > upper_bound:
+        elif not lower_bound <= guess <= upper_bound:  # also catches nan
             raise ParameterSpecificationError(
                     "Guess {} is not within bounds {} and {}.".format(
                     guess, lower_bound, upper_bound))
